@@ -25,7 +25,7 @@ const schemaSetDeliminator string = "-"
 // setSchemaIDs sets all ID fields on a schema description, mutating the input parameter.
 //
 // This includes RootID (if not already set), VersionID, and relational fields.
-func setSchemaIDs(newSchemas []client.SchemaDescription) error {
+func setSchemaIDs(newSchemas []client.SchemaDescription, existingSchemas ...client.SchemaDescription) error {
 	// We need to group the inputs and then mutate them, so we temporarily
 	// map them to pointers.
 	newSchemaPtrs := make([]*client.SchemaDescription, len(newSchemas))
@@ -49,7 +49,7 @@ func setSchemaIDs(newSchemas []client.SchemaDescription) error {
 		newSchemas[i] = *newSchemaPtrs[i]
 	}
 
-	substituteRelationFieldKinds(newSchemas)
+	substituteRelationFieldKinds(newSchemas, existingSchemas)
 
 	return nil
 }
@@ -353,8 +353,13 @@ func assignIDs(baseID string, schemaSet []*client.SchemaDescription) {
 // types.
 //
 // Using names to reference other types is unsuitable as the names may change over time.
-func substituteRelationFieldKinds(schemas []client.SchemaDescription) {
+//
+// A name that is not among the given schemas may refer to one of the existing schemas, added earlier.
+func substituteRelationFieldKinds(schemas []client.SchemaDescription, existingSchemas []client.SchemaDescription) {
 	schemasByName := map[string]client.SchemaDescription{}
+	for _, schema := range existingSchemas {
+		schemasByName[schema.Name] = schema
+	}
 	for _, schema := range schemas {
 		schemasByName[schema.Name] = schema
 	}
